@@ -198,7 +198,10 @@ def _fix_undefined_variables(source: str, variables: Collection[str]) -> str:
             continue
         if core.match_template(node, ast.ImportFrom(module="__future__")):
             continue
-        lineno = min(x.lineno for x in core.walk(node, ast.AST(lineno=int))) - 1
+        # The line of its first character, which also belongs to it where it is a parenthesis
+        # that opens a decorator
+        start = core.get_charnos(node, source).start
+        lineno = len(re.findall(r"\r\n|\r|\n", source[:start]))
         break
 
     newline = "\r\n" if lines and lines[0].endswith("\r\n") else "\n"
